@@ -64,6 +64,8 @@ check('C01', level='exploration', steps=[dict(src='drv/c01.c', variant='plain', 
 
 import c11gen
 check('C11', level='exploration', steps=[dict(src='drv/c11.c', variant='plain', name='table'),
+                                           # the same look-ups on the `make debug` build (-D_DEBUG): trace statements compiled into the validators must not change an answer
+                                           dict(src='drv/c11.c', variant='debug', name='table-debug-build'),
                                            dict(kind='py', name='generators', fn=c11gen.run)],
       rule=("finite artefact enumerated completely: every CSV row (5 case variants, through is_tld and through the four address validators), every table entry, every 1-3 character label, every one-edit "
             "neighbour / proper prefix / proper suffix of every row, every line of tld-domains.txt and raw.csv, every line of the regenerated files; "
@@ -200,6 +202,8 @@ import c17make
 check('C17', level='exploration', steps=[dict(builder=build_c17, name='options'), dict(kind='py', name='makefile', fn=c17make.run),
                                            # the side-by-side comparison again after setlocale() to a single-byte locale: an option that classifies bytes with <ctype.h> changes more than it documents there
                                            dict(builder=build_c17, name='options-latin1-locale', locale='eav_latin1', xargs=['--light']),
+                                           # what the UNDERSCORE option must NOT change: reserved names and TLD classes of names that have a '_' in a front label (C09's generators on that build)
+                                           dict(src='drv/tld.c', variant='opt4', defs=['-DC09', '-DREF_OPTS=4'], name='reserved-names-UNDERSCORE-build'),
                                            # the option builds against the reference automaton WITH the option (C03's product, W-method suite and token strings): every byte in
                                            # every state of the scanner as that build compiles it
                                            dict(src='drv/local.c', variant='opt1', defs=['-DC03', '-DREF_OPTS=1'], name='dfa-RFC5322-build', args=['--core']),
@@ -212,6 +216,9 @@ ASAN_ENV = {'ASAN_OPTIONS': 'detect_leaks=1:abort_on_error=0:exitcode=77:allocat
 COSTWRAP = '-Wl,' + ','.join('--wrap=' + w for w in ['memcpy', 'memchr', 'strchr', 'strrchr', 'strspn', 'strncasecmp', 'strlen'])
 check('C06', level='exploration', steps=[
           dict(src='drv/c06.c', variant='asan', name='asan-ubsan-lsan', env=ASAN_ENV),
+          # the branches that only exist in option builds (RFC6531_FOLLOW_RFC5322 look-ahead / look-behind, RFC 20 cases, '_' in labels) under the same sanitizers,
+          # on the corpora in which local-part and label bytes vary
+          dict(src='drv/c06.c', variant='asan-opt7', name='asan-ubsan-options-build', env=ASAN_ENV, args=['--light']),
           dict(src='drv/c06.c', variant='plain', defs=['-DGUARD'], name='guard-pages'),
           # reads of uninitialised memory (a stack buffer compared before it was written ...) are undefined behaviour that ASan does not see: the ASCII modes and
           # the ASCII part validators under MemorySanitizer (libidn2 is not instrumented, so mode 6531 stays with ASan / valgrind)
